@@ -728,13 +728,15 @@ static void install_child_handlers()
 
 // child: run indices [from, to) stepping by stride until an abnormal end; returns never
 static void child_batch(int fd, RunCfg cfg, uint64_t from, uint64_t to, uint64_t stride, const char *outdir, int worker,
-                        int samples_wanted, unsigned per_run_alarm)
+                        int samples_wanted, unsigned per_run_alarm, double deadline)
 {
   g_child_fd = fd;
   memset(&g_batch, 0, sizeof g_batch);
   install_child_handlers();
   int nviol_batch = 0;
   for (uint64_t idx = from; idx < to; idx += stride) {
+    if (idx != from && now_s() > deadline)
+      break;  // wall budget used up: end the batch here
     g_cur_index = idx;
     cfg.index = idx;
     RunOut out;
@@ -1054,7 +1056,7 @@ static int cmd_worker(int argc, char **argv)
     int fd;
     pid_t pid = fork_child(&fd);
     if (pid == 0)
-      child_batch(fd, cfg, next, to, stride, outdir, worker, samples_left, per_run_alarm);
+      child_batch(fd, cfg, next, to, stride, outdir, worker, samples_left, per_run_alarm, t0 + wall);
     ChildResult cr;
     read_child(fd, pid, cr);
     close(fd);
